@@ -17,6 +17,41 @@ struct Pod
   double b;
   bool operator==(const Pod &o) const { return a == o.a && b == o.b; }
 };
+// a trivially copyable type with stream operators of its own: on the wire it is id + weight (12 bytes), the cached field
+// is recomputed by the reader. Whatever contains such elements has to go through these operators, in both directions.
+struct Compact
+{
+  int32_t id;
+  float weight;
+  uint64_t cached;
+  bool operator==(const Compact &o) const { return id == o.id && weight == o.weight && cached == o.cached; }
+};
+static Compact mkCompact(uint64_t v)
+{
+  Compact c;
+  c.id     = (int32_t)(v * 2654435761u);
+  c.weight = (float)(v & 0xffff) * 0.5f;
+  c.cached = (uint64_t)(uint32_t)c.id * 3 + 1;
+  return c;
+}
+static WriteStream &operator<<(WriteStream &w, const Compact &c)
+{
+  w.write(&c.id, 4);
+  w.write(&c.weight, 4);
+  uint32_t tag = 0xC0FFEE01u;
+  w.write(&tag, 4);
+  return w;
+}
+static ReadStream &operator>>(ReadStream &r, Compact &c)
+{
+  uint32_t tag = 0;
+  r.read(&c.id, 4);
+  r.read(&c.weight, 4);
+  r.read(&tag, 4);
+  c.cached = tag == 0xC0FFEE01u ? (uint64_t)(uint32_t)c.id * 3 + 1 : 0;
+  return r;
+}
+
 static Pod mkPod(uint64_t v)
 {
   Pod p;
@@ -39,13 +74,14 @@ enum Kind
   K_VEC_POD,
   K_VEC_STRING,
   K_VEC_VEC_INT,
+  K_VEC_COMPACT,
   K_ARR_VIEW_INT,
   K_ARR_OWNED_DOUBLE,
   K_ARR_FIXED_INT,
   K_ARR_FIXEDVIEW_U8,
   K_COUNT
 };
-static const char *kKindNames[] = {"u8", "i32", "u64", "f64", "pod", "string", "cstr", "vec<int>", "vec<pod>", "vec<string>", "vec<vec<int>>",
+static const char *kKindNames[] = {"u8", "i32", "u64", "f64", "pod", "string", "cstr", "vec<int>", "vec<pod>", "vec<string>", "vec<vec<int>>", "vec<compact>",
                                    "ArrayView<int>", "OwnedArray<double>", "FixedArray<int>", "FixedArrayView<u8>"};
 
 struct Item
@@ -57,6 +93,7 @@ struct Item
   std::vector<double> vd;
   std::vector<uint8_t> vb;
   std::vector<Pod> vp;
+  std::vector<Compact> vc;
   std::vector<std::string> vs;
   std::vector<std::vector<int>> vvi;
   size_t bytes;  // model size in the stream
@@ -117,6 +154,12 @@ static Item genItem(vh::Rng &r)
       it.vp.push_back(mkPod(r.next() & 0xffff));
     it.bytes = 8 + sizeof(Pod) * n;
     break;
+  case K_VEC_COMPACT:
+    n %= 64;
+    for (size_t i = 0; i < n; ++i)
+      it.vc.push_back(mkCompact(r.next()));
+    it.bytes = 8 + 12 * n;
+    break;
   case K_VEC_STRING: {
     size_t m = r.below(6);
     it.bytes = 8;
@@ -155,6 +198,7 @@ static void writeItem(WriteStream &w, Item &it)
   case K_CSTR: w << it.str.c_str(); break;
   case K_VEC_INT: w << it.vi; break;
   case K_VEC_POD: w << it.vp; break;
+  case K_VEC_COMPACT: w << it.vc; break;
   case K_VEC_STRING: w << it.vs; break;
   case K_VEC_VEC_INT: w << it.vvi; break;
   case K_ARR_VIEW_INT: {
@@ -266,6 +310,13 @@ static std::string readItem(BufferReader &rd, const Item &it, int how)
       v.assign((how & 4) ? 1 : 20, mkPod(0x1234));
     rd >> v;
     return v == it.vp ? "" : "pod vector differs";
+  }
+  case K_VEC_COMPACT: {
+    std::vector<Compact> v;
+    if (how & 2)
+      v.assign((how & 4) ? 1 : 20, mkCompact(77));
+    rd >> v;
+    return v == it.vc ? "" : "vector of elements with their own stream operators differs";
   }
   case K_VEC_STRING: {
     std::vector<std::string> v;
@@ -615,7 +666,7 @@ int main(int argc, char **argv)
 {
   vh::init(argc, argv);
   vh::rule(
-      "case = a generated typed schema (0..9 items of 15 kinds: arithmetic, POD, string, const char*, vector<POD>, vector<string>, "
+      "case = a generated typed schema (0..9 items of 16 kinds: arithmetic, POD, string, const char*, vector<POD>, vector<string>, vector of a trivially copyable type with its own stream operators, "
       "vector<vector<int>>, the four array wrapper types through AbstractArray<T>) written through BufferWriter and WriteSizeCalculator "
       "and read back over an exact-size buffer (then again after the buffer was shortened under the reader or the cursor moved past the end) into fresh destinations or (half of the cases) destinations that already hold longer or "
       "shorter earlier values, plus every truncation point of small streams; or a FixedBufferWriter capacity 0..64 with a "
